@@ -320,6 +320,8 @@ Definition parse_fill_arg (arg : string) : option (string * string * string) :=
 Definition parse_fill_with_args (args : list string) : list (string * string * string) :=
   flat_map (fun a => match parse_fill_arg a with Some e => [e] | None => [] end) args.
 
+Definition file_names (P : project) : list string := map fst (pj_migrations P).
+
 (* environment of one `revision` run: is there a terminal for dialoguer (if so every prompt is
    answered with its default, cf. VV.M1.Revision), the uuid and the clock *)
 Record rev_env := mkEnv { re_tty : bool; re_uuid : string; re_now : string }.
@@ -328,6 +330,8 @@ Inductive rev_out :=
 | RevNothing                          (* "No changes detected", exit 0, nothing written *)
 | RevRefused                          (* explicit bail-out: non-nullable FK column (revision.rs:335-368), exit 1 *)
 | RevNeedsTty                         (* a prompt is needed and there is no terminal: "not a terminal", exit 1 *)
+| RevRefusedVersion                   (* fix fcb5089: a stored plan already has this or a greater version (u32 saturation), exit 1 *)
+| RevRefusedExists                    (* fix fcb5089: the target file already exists, nothing is overwritten, exit 1 *)
 | RevWrote (file : string) (p : plan).
 
 Definition cmd_revision (P : project) (message : string) (fill_args : list string) (env : rev_env)
@@ -342,6 +346,8 @@ Definition cmd_revision (P : project) (message : string) (fill_args : list strin
           | Err e => Err (EPlanning e)
           | Ok plan =>
               if is_nil (p_actions plan) then Ok RevNothing
+              else if existsb (fun q => N.leb (p_version plan) (p_version q)) plans     (* revision.rs:420-427 *)
+              then Ok RevRefusedVersion
               else if refuses (p_actions plan) then Ok RevRefused
               else
                 match replay plans with                                          (* revision.rs:391 *)
@@ -371,8 +377,10 @@ Definition cmd_revision (P : project) (message : string) (fill_args : list strin
                             let a3 := map (default_as_fill baseline) a2 in
                             let cfg := pj_config P in
                             let p' := mkPlan (re_uuid env) (Some message) (Some (re_now env)) (p_version plan) a3 in
-                            Ok (RevWrote (migration_filename (p_version p') (p_comment p')
-                                            (cf_migration_format cfg) (cf_pattern cfg)) p')
+                            let name := migration_filename (p_version p') (p_comment p')
+                                          (cf_migration_format cfg) (cf_pattern cfg) in
+                            if mem_str name (file_names P) then Ok RevRefusedExists             (* path.exists() *)
+                            else Ok (RevWrote name p')
                         end
                     end
                 end
@@ -396,7 +404,6 @@ Definition project_after (P : project) (o : cres rev_out) : project :=
 Definition step_revision (P : project) (message : string) (fill_args : list string) (env : rev_env) : project :=
   project_after P (cmd_revision P message fill_args env).
 
-Definition file_names (P : project) : list string := map fst (pj_migrations P).
 Definition versions (P : project) : list N := map (fun f => p_version (snd f)) (pj_migrations P).
 Definition max_version (P : project) : N := fold_left N.max (versions P) 0%N.
 
